@@ -419,7 +419,7 @@ class Unit:
         n = 0
         while True:
             bm = mask(body)
-            mt = re.search(r'tokio::select!\s*\{', bm)
+            mt = re.search(r'(?:tokio|::remoc::rtc)::select!\s*\{', bm)
             if not mt:
                 break
             bo = mt.end() - 1
